@@ -217,6 +217,37 @@ def check_state(ctx, name, consts, forms, gal, rp, n_state):
                              'bdspecs': bds, 'numdofs': n, 'levels': lt + 1} if len(ctx.samples) < 4 and lt >= 2 else None)
 
 
+def check_repeated_knots(ctx, name, consts, hist, n_state):
+    """Coarse knot vectors with interior knots of multiplicity 2 (outside the HSpace model, whose levels have simple knots):
+    the same refinement history on the real code; numeric predicate A_hier = R^T A_fine R with R = represent_fine() of the
+    same object (the representation itself is the subject of C04/C05) and A_fine the tensor-product matrix of the finest
+    level."""
+    from pyiga import assemble, bspline, hierarchical, geometry
+    D = consts['D']
+    if min([consts['P1'], consts['P2']][:D]) < 2:
+        return
+    disp = consts['Disp'] if consts['Disp'] > 0 else np.inf
+    kvs = hs_util.make_kvs(consts, integer_grid=True, mult=2)
+    marks = [c['marks'] for c in hist]
+    sig = 'repeated-interior-knots config=%s marks=%s' % (name, json.dumps(marks))
+    for trunc in (False, True):
+        try:
+            hs = hierarchical.HSpace(kvs, truncate=trunc, disparity=disp)
+            for call in hist:
+                hs.refine(hs_util.render_marks(call, 'set', hs))
+            geo = geometry.identity(kvs)
+            A = assemble.assemble('u*v*dx', hs, args={'geo': geo}).toarray()
+            R = hs.represent_fine().toarray()
+            Af = assemble.mass(hs.knotvectors(hs.numlevels - 1)).toarray()
+            want = R.T @ Af @ R
+            ctx.case((name, json.dumps(marks), 'mult2', trunc), nontrivial=hs.numlevels >= 2)
+            if A.shape != want.shape or np.abs(A - want).max() > 1e-10 * max(1.0, np.abs(want).max()):
+                ctx.violation('numeric: hierarchical mass matrix differs from R^T M_fine R truncate=%s %s' % (trunc, sig),
+                              {'maxdiff': float(np.abs(A - want).max()) if A.shape == want.shape else 'shape'})
+        except Exception as ex:
+            ctx.violation('exception %s %s truncate=%s' % (type(ex).__name__, sig, trunc), {'error': repr(ex)})
+
+
 def run(ctx):
     ctx.rule = ('one case = (reachable HSpace state from HAssemble/HRepr, form, HB|THB): the real hierarchical matrix/vector '
                 'against Repr^T A_fine Repr from exact rational pieces; non-trivial = space with >= 2 levels')
@@ -253,5 +284,7 @@ def run(ctx):
         g = gal[0]['gal']
         for n_state, rp in enumerate(reps):
             check_state(ctx, name, consts, forms, g, rp, n_state)
+            if n_state % 3 == 0 and not name.endswith('-c3'):
+                check_repeated_knots(ctx, name, consts, rp['hist'], n_state)
     pool.shutdown()
     ctx.exhaustive = True
